@@ -126,6 +126,10 @@ func (mr *msgReader) resetFlate() {
 	}
 	if mr.flateBufio == nil {
 		mr.flateBufio = getBufioReader(mr.readFunc)
+	} else {
+		// Drop what the previous message left behind, e.g. the bytes that
+		// follow a final DEFLATE block. See RFC 7692 section 7.2.3.4.
+		mr.flateBufio.Reset(mr.readFunc)
 	}
 
 	if mr.flateContextTakeover() {
@@ -416,6 +420,12 @@ func (mr *msgReader) Read(p []byte) (n int, err error) {
 		p = p[:n]
 		mr.dict.write(p)
 	}
+	if mr.flate && err == io.EOF {
+		// The DEFLATE stream ended with a final block (BFINAL) which may be
+		// followed by more payload, e.g. the empty block of RFC 7692
+		// section 7.2.3.4. Skip to the end of the message.
+		err = mr.discard()
+	}
 	if errors.Is(err, io.EOF) || errors.Is(err, io.ErrUnexpectedEOF) && mr.fin && mr.flate {
 		mr.putFlateReader()
 		return n, io.EOF
@@ -424,6 +434,18 @@ func (mr *msgReader) Read(p []byte) (n int, err error) {
 		return n, fmt.Errorf("failed to read: %w", err)
 	}
 	return n, nil
+}
+
+// discard reads and drops the rest of the current message's payload.
+// It returns io.EOF once the end of the message has been reached.
+func (mr *msgReader) discard() error {
+	var b [512]byte
+	for {
+		_, err := mr.read(b[:])
+		if err != nil {
+			return err
+		}
+	}
 }
 
 func (mr *msgReader) read(p []byte) (int, error) {
